@@ -5,7 +5,8 @@
           | (2 (cop ...) skip) | (3 (cop ...) (j ...))   see [driver_entry] (real crashes, thorough tier)
    call   : (cop (clk ...))              clk = (r1 r2 r3), one per OBSERVED micro-step of the
                                          call (a row of an executemany counts as one step)
-   cop    : (0 op) | (1 b (ev ...) k)    op as in Extract/ExC02.v:
+   cop    : (0 op) | (1 b (ev ...) k) | (2 b (ev ...) k)    (1: bulk statement raises on row k; 2: the upsert
+                                         loop raises on id-carrying event k)    op as in Extract/ExC02.v:
             (0 b meta) create | (1 b ty? cl? ho? na? da?) update | (2 b) delete_bucket
             (3) buckets | (4 b) get_metadata | (5 b ev) insert_one | (6 b (ev..)) insert_many
             (7 b id ev) replace | (8 b ev) replace_last | (9 b id) delete | (10 b id) get_event
@@ -68,6 +69,11 @@ Definition sCop (s : sexp) : option cop :=
   | L [A 1; A b; es; A k] =>
       match sEvents es with
       | Some es => if k <? 0 then None else Some (BulkOverflow b es (Z.to_nat k))
+      | None => None
+      end
+  | L [A 2; A b; es; A k] =>
+      match sEvents es with
+      | Some es => if k <? 0 then None else Some (UpsertOverflow b es (Z.to_nat k))
       | None => None
       end
   | _ => None
